@@ -18,6 +18,12 @@ Oracle  : fit   : sparse.toarray() == dense == reference (sum over the edges - v
                   pair the model returns is an eigenpair (c, 1/l) of the reference precision and the mean is the
                   sample mean; completeness / equality between storages is NOT demanded (the sparse path asks ARPACK
                   for N-1 pairs by design and the property text does not speak about PCA).
+          mform : 'argument form' letters - the SAME payload as int64/int32/int16/uint8/float32/float16/bool ndarrays,
+                  python lists / tuples of python or numpy scalars, lists / tuples of rows, read-only / column-major /
+                  strided / negative-stride views, integer / float32 / bool / non-owning PointClouds: the distance equals
+                  the reference quadratic form of the VALUES (float64), equals what the same model returns for the
+                  same values as a plain float64 array, sparse == dense.  The training data is presented in the
+                  same families of forms (FORM_FEEDS) and every fit / query oracle is applied to those models too.
           queries never change the observation of either model (queries_must_not_mutate).
 """
 import itertools
